@@ -117,7 +117,12 @@ def gen_flow(tier: str, rng: random.Random) -> Iterator[Dict[str, Any]]:
                     steps.append({"s": "dt", "d": 0.01})
                     yield h2_script(steps, {"1": prog}, "h2/flow-exact/%d/%d/%s/%s" % (W, total, style, exact_credit),
                                     settings={4: iw}, autoack=False, maxchunk=max(total, 1))
-    # priorities: PRIORITY before HEADERS, dependencies, exclusive, reprioritisation while blocked
+    yield from gen_priority(tier, rng)
+
+
+def gen_priority(tier: str, rng: random.Random) -> Iterator[Dict[str, Any]]:
+    """PRIORITY before HEADERS, dependencies, exclusive, reprioritisation while blocked - including making a
+    stream depend on its own dependent (RFC 7540 5.3.3), which is legal."""
     for variant in range(6 if tier == "quick" else 24):
         steps = []
         W = rng.choice([0, 100, 65535])
@@ -133,7 +138,9 @@ def gen_flow(tier: str, rng: random.Random) -> Iterator[Dict[str, Any]]:
             steps.append({"s": "h2", "op": "wupd", "stream": sid, "n": 100000})
         steps.append({"s": "dt", "d": 0.01})
         apps = {str(i): big_resp(i, 30000 + i, 9000) for i in (1, 2, 3)}
-        yield h2_script(steps, apps, "h2/priority/%d" % variant, settings={4: W}, autoack=False, maxchunk=9000)
+        sc = h2_script(steps, apps, "h2/priority/%d" % variant, settings={4: W}, autoack=False, maxchunk=9000)
+        sc["unusual"] = "priority-dependency-cycle"
+        yield sc
 
 
 def gen_release(tier: str, rng: random.Random) -> Iterator[Dict[str, Any]]:
